@@ -147,6 +147,12 @@ fn judge(obs: String, resp: Option<Response>, expect: &str) -> (String, String) 
                         fails.push("C01:a_genuine_response_is_not_decoded_the_probe_would_be_reported_awaited".to_string());
                     }
                     Some((acc, seq, _)) => {
+                        if let Some(x) = t.get(3).and_then(|x| x.strip_prefix('x')) {
+                            let got = obs.split('/').nth(4).unwrap_or("?");
+                            // "-" expected: a long quotation of a non-RFC 4884 router may be read as an EMPTY legacy structure ("+")
+                            let fine = got == x || (x == "-" && got == "+") || !(obs.starts_with("te/") || obs.starts_with("du/"));
+                            if !fine { fails.push(format!("C14:extensions_reported_{got}_the_router_encoded_{x}")); }
+                        }
                         if !acc { fails.push("C02:own_response_rejected".to_string()); fails.push("C01:a_genuine_response_is_rejected_the_probe_would_be_reported_awaited".to_string()); }
                         if seq != want { fails.push(format!("C02:sequence_{seq}_expected_{want}")); fails.push(format!("C01:a_genuine_response_is_matched_to_sequence_{seq}_instead_of_{want}")); }
                     }
@@ -334,6 +340,32 @@ fn ext_structure(objs: &[Vec<u8>]) -> Vec<u8> {
     let c = inet_sum(&[&v]);
     put16(&mut v, 2, c);
     v
+}
+
+/// the canonical text (format of strat::opt_exts) of an extension structure built by `ext_structure` / `ext_object` /
+/// `mpls_entry` above - a decoder of this harness's OWN encoding, independent of the code under test
+fn canon_of_ext_structure(b: &[u8]) -> String {
+    let mut v: Vec<u8> = vec![];
+    let mut i = 4;
+    while i + 4 <= b.len() {
+        let len = usize::from(u16::from_be_bytes([b[i], b[i + 1]]));
+        let (class, sub) = (b[i + 2], b[i + 3]);
+        if len < 4 || i + len > b.len() { break; }
+        let payload = &b[i + 4..i + len];
+        if class == 1 && sub == 1 {
+            let n = payload.len() / 4;
+            v.push(1); v.push((n >> 8) as u8); v.push(n as u8);
+            for m in payload.chunks(4) {
+                let label = (u32::from(m[0]) << 12) | (u32::from(m[1]) << 4) | u32::from(m[2] >> 4);
+                v.extend([(label >> 16) as u8, (label >> 8) as u8, label as u8, (m[2] >> 1) & 7, m[2] & 1, m[3]]);
+            }
+        } else {
+            v.push(0); v.push(class); v.push(sub); v.push((payload.len() >> 8) as u8); v.push(payload.len() as u8);
+            v.extend_from_slice(payload);
+        }
+        i += len;
+    }
+    format!("+{}", if v.is_empty() { String::new() } else { hex(&v) })
 }
 fn rand_ext(rng: &mut Rng) -> Vec<u8> {
     let n = 1 + rng.below(3) as usize;
@@ -554,12 +586,23 @@ fn valid_response(rng: &mut Rng, c: &Cell) -> (RCfg, Vec<u8>, Option<IpAddr>, St
     let seq = if rng.chance(1, 6) { initseq } else { initseq.saturating_add(rng.below(span) as u16).min(65534) };
     let id = ident(c, tid, initseq, seq);
     let iph = if c.v6 { 40 } else { 20 };
-    let size = *rng.pick(&[iph + 8, iph + 8, iph + 9, 84, 84, 200, 1024]).max(&(iph + 8));
+    let near_buffer = 900 + rng.below(117) as usize;   // messages of 985..1024 octets (quotation + extension) reach the end of the receive buffer
+    let size = *rng.pick(&[iph + 8, iph + 8, iph + 9, 84, 84, 200, 1024, near_buffer, near_buffer]).max(&(iph + 8));
     let d = probe_dgram(c, &rc, &id, *rng.pick(&[1u8, 2, 30, 255]), *rng.pick(&[0u8, 0, 0x10, 0xfc]), size, rng);
     let peer = rand_peer(rng, c, &rc, d.len());
     let (b, offs) = quote(c.v6, &addr_bytes(rc.src), &peer, &d);
     let from = if c.v6 { Some(addr_from(&peer.router)) } else { None };
-    let expect = format!("own={}={}", strat_cfg(c, &rc, tid, initseq).render(), seq);
+    // what the tracer must report as extensions (C14): everything the router encoded when parsing is enabled and the message
+    // fits the 1024-octet receive buffer; nothing when parsing is disabled or no structure was sent
+    let ext_expect = match &peer.ext {
+        _ if !rc.ext => Some("-".to_string()),
+        ExtForm::Absent => Some("-".to_string()),
+        ExtForm::Rfc4884(e) | ExtForm::Legacy(e) => if b.len() <= 1024 { Some(canon_of_ext_structure(e)) } else { None },
+    };
+    let expect = match ext_expect {
+        Some(x) => format!("own={}={}=x{}", strat_cfg(c, &rc, tid, initseq).render(), seq, x),
+        None => format!("own={}={}", strat_cfg(c, &rc, tid, initseq).render(), seq),
+    };
     (rc, b, from, expect, offs, d, peer, id)
 }
 
@@ -668,11 +711,13 @@ fn sockerr_case(rc: &RCfg, what: &str, out: &mut Out) {
 
 /// several datagrams delivered to ONE channel, in order (state kept inside the channel between datagrams must not matter)
 fn recvseq_tagged(rc: &RCfg, from: Option<IpAddr>, list: &[Vec<u8>], unrewritten_dublin4: bool, out: &mut Out) {
-    recvseq_case(rc, from, list, unrewritten_dublin4, out)
+    recvseq_case(rc, from, list, if unrewritten_dublin4 { "dublin4" } else { "-" }, out)
 }
-fn recvseq_case(rc: &RCfg, from: Option<IpAddr>, list: &[Vec<u8>], unrewritten_dublin4: bool, out: &mut Out) {
-    let input = format!("recvseq {} {} {} {}", rc.render(), from.map_or("-".to_string(), |a| hex(&addr_bytes(a))),
-        list.iter().map(|b| hex(b)).collect::<Vec<_>>().join(","), if unrewritten_dublin4 { "dublin4" } else { "-" });
+fn recvseq_case(rc: &RCfg, from: Option<IpAddr>, list: &[Vec<u8>], tag: &str, out: &mut Out) {
+    let unrewritten_dublin4 = tag == "dublin4";
+    let rewritten_dublin4 = tag == "dublin4nat";
+    let input = format!("recvseq {} {} {} {tag}", rc.render(), from.map_or("-".to_string(), |a| hex(&addr_bytes(a))),
+        list.iter().map(|b| hex(b)).collect::<Vec<_>>().join(","));
     let r = catch_unwind(AssertUnwindSafe(|| {
         sim::reset();
         let mut ch = match Channel::<SimSocket>::connect(&rc.channel_config(84, 0, 33434)) { Ok(c) => c, Err(e) => return vec![format!("err:{}", ErrK::of(&e).tok())] };
@@ -696,6 +741,16 @@ fn recvseq_case(rc: &RCfg, from: Option<IpAddr>, list: &[Vec<u8>], unrewritten_d
                     if t[k + 6] != t[k + 7] { fails.push(format!("C19:nat_would_be_shown_on_an_unrewritten_path:datagram_{i}:expected_{}_quoted_{}", t[k + 6], t[k + 7])); }
                 }
                 _ => fails.push(format!("C02:own_response_not_recognised:datagram_{i}")),
+            }
+        }
+        if rewritten_dublin4 {
+            // C19: a device rewrote the source address (and fixed the UDP checksum): the quoted checksum differs from the one
+            // the probe was sent with, and the recomputed (expected) value must be that of the probe AS SENT
+            let t: Vec<&str> = o.split('/').collect();
+            if let Some(k) = t.iter().position(|x| *x == "u") {
+                if t.len() > k + 7 && t[k + 6] == t[k + 7] {
+                    fails.push(format!("C19:rewritten_datagram_{i}_shows_no_checksum_difference:expected_{}_quoted_{}", t[k + 6], t[k + 7]));
+                }
             }
         }
     }
@@ -768,8 +823,7 @@ pub fn run(args: &Args, out: &mut Out) {
                     let rc = RCfg::parse(t[1]);
                     let from = if t[2] == "-" { None } else { Some(addr_from(&unhex(t[2]))) };
                     let list: Vec<Vec<u8>> = t[3].split(',').map(unhex).collect();
-                    let dub4 = rc.proto == Protocol::Udp && !rc.v6() && t.get(4).copied() == Some("dublin4");
-                    recvseq_case(&rc, from, &list, dub4, out);
+                    recvseq_case(&rc, from, &list, t.get(4).copied().unwrap_or("-"), out);
                 }
                 "tcpseq" => tcpseq_case(&RCfg::parse(t[1]), t[2].parse().unwrap(), &t[3].split(',').map(ToString::to_string).collect::<Vec<_>>(), out),
                 "sockerr" => sockerr_case(&RCfg::parse(t[1]), t[2], out),
@@ -994,6 +1048,27 @@ pub fn run(args: &Args, out: &mut Out) {
                 let input_from = from;
                 recvseq_tagged(&rc, input_from, &list, input_tag, out);
                 n += 1;
+                if dublin4 {
+                    // the same probes after a source NAT: new source address in the quoted IP header, UDP checksum recomputed for it
+                    let nat_src = [198u8, 51, 100, 1 + rng.below(200) as u8];
+                    let mut list2 = vec![];
+                    for round in 0..2u16 {
+                        let seq = initseq + round * 7;
+                        let mut id = ident(c, tid, initseq, seq);
+                        match c.pd { PortDirection::FixedSrc(_) => id.dp = initseq + round * 7, PortDirection::FixedDest(_) => id.sp = initseq + round * 7, _ => {} }
+                        let Some(mut d) = real_dgram(&rc, &id, size as u16, 0, 3, 7) else { continue };
+                        if d.len() < 28 { continue; }
+                        d[12..16].copy_from_slice(&nat_src);
+                        d[26] = 0; d[27] = 0;
+                        let dst = d[16..20].to_vec();
+                        let ck = { let u = &d[20..]; let c = inet_sum(&[&pseudo(&nat_src, &dst, 17, u.len()), u]); if c == 0 { 0xffff } else { c } };
+                        put16(&mut d, 26, ck);
+                        let peer = rand_peer(&mut rng, c, &rc, d.len());
+                        let (b, _) = quote(false, &addr_bytes(rc.src), &peer, &d);
+                        list2.push(b);
+                    }
+                    if !list2.is_empty() { recvseq_case(&rc, None, &list2, "dublin4nat", out); n += 1; }
+                }
             }
         }
         out.stat("multi_datagram_sequences", &n.to_string());
